@@ -49,6 +49,42 @@ def record(n_services: int, cb_seconds: float, sid: str, mode: str = 'backlog') 
 
         def update_service(self, zc: Any, type_: str, name: str) -> None:
             self._cb('upd', name)
+    if mode == 'async-close':
+        # an asyncio application with a thread-based listener (add_service_listener on the instance behind its AsyncZeroconf)
+        # shuts down with `await async_close()` on the loop while the listener still has a backlog of slow callbacks
+        from zeroconf.asyncio import AsyncZeroconf
+        skip = {}
+
+        async def app() -> None:
+            try:
+                aiozc = AsyncZeroconf(interfaces=['127.0.0.1'])
+            except Exception:  # noqa: BLE001
+                skip['y'] = True
+                return
+            zc2 = aiozc.zeroconf
+            await zc2.async_wait_for_start()
+            zc2.add_service_listener(TYPE, Slow())
+            await asyncio.sleep(0.3)
+            out = DNSOutgoing(const._FLAGS_QR_RESPONSE | const._FLAGS_AA)
+            for k in range(n_services):
+                out.add_answer_at_time(DNSPointer(TYPE, const._TYPE_PTR, const._CLASS_IN, 4500, 'Inst%d.%s' % (k, TYPE)), 0)
+            zc2.engine.protocols[0].datagram_received(out.packets()[0], ('127.0.0.1', const._MDNS_PORT))
+            await asyncio.sleep(0.2)
+            ev('api', op='close')
+            try:
+                await aiozc.async_close()
+                ev('api_ret', op='close', ok=True)
+            except Exception as ex:  # noqa: BLE001
+                ev('exc', what=type(ex).__name__, msg=str(ex)[:100])
+            await asyncio.sleep(n_services * cb_seconds + 0.8)
+        try:
+            asyncio.run(app())
+        except Exception as ex:  # noqa: BLE001
+            ev('exc', what=type(ex).__name__, msg=str(ex)[:100])
+        if skip:
+            return None
+        ev('end')
+        return {'id': sid, 'events': events}
     try:
         zc = Zeroconf(interfaces=['127.0.0.1'])
     except Exception:  # noqa: BLE001
